@@ -48,7 +48,38 @@ def run(chk):
     # one rekey per commitment blinding factor, and 32 bytes of the caller's randomness
     fl = vlib.flags(P=1, R=1, E=1)
     for i, (curve, kind, n) in enumerate([("toy31723", "honest", 300 if q else 6000), ("toy79", "honest", 200 if q else 4000), ("toy31723", "badwit", 100 if q else 2000)]):
-        vlib.toy_traces(chk, curve, kind, n, fl, "blinding", seed_off=30 + i)
+        name = "%s_%s" % (kind, curve)
+        progs = vlib.genprogs(chk, chk.seed + 30 + i, n, vlib.TOY_P[curve], kind, name)
+        tp, sums = vlib.record(chk, curve, progs, name)
+        acc, rej = vlib.validate_traces(chk, tp, curve, flags=fl)
+        for p in progs:
+            chk.count_case([curve, p["p"]])
+        chk.sample({"curve": curve, "program": progs[min(3, len(progs) - 1)]})
+        for rj in rej:
+            # the emitted proof is not the reference prover's. Is it the blinding that deviates?
+            one = chk.path("one.ndjson")
+            vlib.write_ndjson(one, rj["run"])
+            a_h, r_h = vlib.validate_traces(chk, one, curve, flags=vlib.flags(H=1))
+            if r_h:
+                # the constraint-system bookkeeping itself differs from the specification (C16's business): the reference prover would be
+                # fed a different assignment layout, so it is no yardstick for this run
+                chk.cov["runs_not_judged_protocol_differs"] = chk.cov.get("runs_not_judged_protocol_differs", 0) + 1
+                continue
+            a_b, r_b = vlib.validate_traces(chk, one, curve, flags=dict(vlib.flags(R=1, E=1), CMP_B="1"))
+            if r_b:
+                # the weight-independent part already differs: draw count, a witness-bearing or masking commitment, e_blinding, RNG construction
+                vlib.report_rejects(chk, [rj], "blinding")
+                continue
+            a_v, r_v = vlib.validate_traces(chk, one, curve, flags=vlib.flags(V=1))
+            accepted = any(e.get("ev") == "end" and e.get("vres") == "ok" for e in rj["run"])
+            if not r_v and accepted:
+                # the reference verifier accepts this proof exactly as the code does, so the protocol is the reference protocol and the remaining
+                # difference (polynomial commitments T_k, t_x_blinding) lies in the prover's blinding
+                vlib.report_rejects(chk, [rj], "blinding-poly")
+            else:
+                # prover and verifier both deviate from the reference protocol in the same run: what is proved changed (C18's business),
+                # and the reference prover is no yardstick for this run's polynomial blindings
+                chk.cov["runs_not_judged_protocol_differs"] = chk.cov.get("runs_not_judged_protocol_differs", 0) + 1
     # differential runs on the 256-bit curves: different external randomness => no shared component except the statement-fixed ones;
     # the same randomness => the same proof
     shapes = [member(0, "good", "hid", 1), member(1, "good", "hid", 1), member(3, "good", "hid", 1), two_phase(1, "hid", 1), two_phase(3, "hid", 1)]
@@ -58,7 +89,7 @@ def run(chk):
         progs = []
         for s in shapes:
             for sd in (chk.seed + 11, chk.seed + 11, chk.seed + 12, chk.seed + 13):
-                progs.append(dict(s, seed=sd, id="%s-seed%d-%d" % (s["id"], sd, len(progs)), expect_p="ok", expect_v="ok"))
+                progs.append(dict(s, seed=sd, id="%s-seed%d-%d" % (s["id"], sd, len(progs)), expect_p="", expect_v=""))   # verdicts are not this property's business
         rows = vlib.replay(chk, c, progs, "hid", jobs=4)
         vlib.report_replay(chk, rows, "hiding-run")
         by = {}
